@@ -168,6 +168,10 @@ func checkTrunc(c truncCase) error {
 	if dropped > 0 && kept == 0 {
 		classes = append(classes, "all-dropped")
 	}
+	if c.Spell != 0 {
+		classes = append(classes, "respelled-names")
+	}
+	classes = append(classes, runClasses(m, orig, [3]int{len(aAn), len(aNs), len(aEx)})...)
 	if len(bAn)+len(bNs)+len(bEx) == 0 && len(bw) > S {
 		classes = append(classes, "no-records-base>limit") // nothing to drop, the reply is just too big
 	}
@@ -280,6 +284,85 @@ func checkTrunc(c truncCase) error {
 	return nil
 }
 
+// runClasses: the RRset structure of the reply. A run = two or more neighbouring records of one
+// section with the same type and the same owner NAME (RFC 4343: letters compare without case); its
+// spelling is mixed when the owner TEXTS handed to the library differ. kept = number of records (OPT
+// aside) each section retained.
+func runClasses(m wm.Msg, orig *dns.Msg, kept [3]int) []string {
+	var run, mixed, addrMixed, cutIn, cutInMixed, long bool
+	for si, sec := range [][]wm.Rec{m.An, m.Ns, m.Ex} {
+		libsec := [][]dns.RR{orig.Answer, orig.Ns, orig.Extra}[si]
+		if len(libsec) != len(sec) {
+			continue
+		}
+		pos := 0 // index among the non-OPT records
+		start := -1
+		runLen := 0
+		runMixed := false
+		for i := range sec {
+			if sec[i].Type == wm.TOPT {
+				continue
+			}
+			same := start >= 0 && sec[i].Type == sec[start].Type && sec[i].Name.Lower().Equal(sec[start].Name.Lower())
+			if same {
+				runLen++
+				run = true
+				if runLen >= 20 {
+					long = true
+				}
+				if libsec[i].Header().Name != libsec[start].Header().Name {
+					runMixed = true
+				}
+				if runMixed {
+					mixed = true
+					if sec[i].Type == wm.TA || sec[i].Type == wm.TAAAA {
+						addrMixed = true
+					}
+				}
+				if pos == kept[si] && kept[si] < countNonOpt(sec) {
+					cutIn = true // the first dropped record continues a run
+					if runMixed {
+						cutInMixed = true
+					}
+				}
+			} else {
+				start, runLen, runMixed = i, 1, false
+			}
+			pos++
+		}
+	}
+	var out []string
+	if run {
+		out = append(out, "rrset-run")
+	}
+	if long {
+		out = append(out, "rrset-run>=20")
+	}
+	if mixed {
+		out = append(out, "rrset-run-mixed-spelling")
+	}
+	if addrMixed {
+		out = append(out, "address-rrset-mixed-spelling")
+	}
+	if cutIn {
+		out = append(out, "cut-inside-rrset")
+	}
+	if cutInMixed {
+		out = append(out, "cut-inside-mixed-spelling-rrset")
+	}
+	return out
+}
+
+func countNonOpt(sec []wm.Rec) int {
+	n := 0
+	for _, r := range sec {
+		if r.Type != wm.TOPT {
+			n++
+		}
+	}
+	return n
+}
+
 // boundary sizes: the compressed packed length of every record prefix (OPT kept), +-1
 func pickSize(t *rapid.T, m wm.Msg) int { return pickSizeSpelled(t, m, 0) }
 
@@ -307,32 +390,33 @@ func pickSizeSpelled(t *rapid.T, m wm.Msg, spell uint64) int {
 	var lens []int
 	step := 1
 	if total > 120 {
-		step = total / 40 // very long replies: a selection of prefixes (packing every prefix is quadratic)
+		step = total / 40 // very long replies: a selection of prefixes
 	}
+	// The packed length of every prefix in ONE packing: a compression pointer only points backwards,
+	// so the reply with the first k records (and the OPT, whose root owner and option data never
+	// compress, behind them) packs to the offset at which record k ends in the packing of all of them
+	// plus the length of the OPT. (Round 9; packing each prefix on its own, from a deep copy of the
+	// whole reply, was half of the cost of the quick tier.)
+	x := *lib
+	x.Answer, x.Ns = an, ns
+	x.Extra = append([]dns.RR{}, ex...)
+	if opt != nil {
+		x.Extra = append(x.Extra, opt)
+	}
+	p, err := x.Pack()
+	if err != nil {
+		return 512
+	}
+	ends, ok := recordEnds(p, len(x.Question), total)
+	if !ok {
+		return 512
+	}
+	optLen := len(p) - ends[total]
 	for k := 0; k <= total; k += step {
 		if step > 1 && k+step > total {
 			k = total
 		}
-		x := lib.Copy()
-		x.Answer, x.Ns, x.Extra = nil, nil, nil
-		for i := 0; i < k; i++ {
-			switch {
-			case i < len(an):
-				x.Answer = append(x.Answer, an[i])
-			case i < len(an)+len(ns):
-				x.Ns = append(x.Ns, ns[i-len(an)])
-			default:
-				x.Extra = append(x.Extra, ex[i-len(an)-len(ns)])
-			}
-		}
-		if opt != nil {
-			x.Extra = append(x.Extra, opt)
-		}
-		p, err := x.Pack()
-		if err != nil {
-			return 512
-		}
-		lens = append(lens, len(p))
+		lens = append(lens, ends[k]+optLen)
 	}
 	// prefer boundaries that lie above the 512-octet floor
 	var high []int
@@ -350,6 +434,45 @@ func pickSizeSpelled(t *rapid.T, m wm.Msg, spell uint64) int {
 		s = 0
 	}
 	return s
+}
+
+// recordEnds walks a packed message (RFC 1035 4.1): ends[k] = offset behind the k-th record after the
+// question section (ends[0] = end of the question section), for k = 0..n.
+func recordEnds(p []byte, nq, n int) ([]int, bool) {
+	skipName := func(off int) int {
+		for off < len(p) {
+			c := int(p[off])
+			switch {
+			case c == 0:
+				return off + 1
+			case c&0xC0 == 0xC0:
+				return off + 2
+			case c&0xC0 != 0:
+				return -1
+			}
+			off += 1 + c
+		}
+		return -1
+	}
+	off := 12
+	for i := 0; i < nq; i++ {
+		if off = skipName(off); off < 0 || off+4 > len(p) {
+			return nil, false
+		}
+		off += 4
+	}
+	ends := []int{off}
+	for i := 0; i < n; i++ {
+		if off = skipName(off); off < 0 || off+10 > len(p) {
+			return nil, false
+		}
+		off += 10 + int(p[off+8])<<8 + int(p[off+9])
+		if off > len(p) {
+			return nil, false
+		}
+		ends = append(ends, off)
+	}
+	return ends, true
 }
 
 // extRcode gives a quarter of the replies that carry an OPT an extended RCODE (RFC 6891 6.1.3: the
@@ -498,7 +621,12 @@ func genAny(t *rapid.T) truncCase {
 		m.Ex = append(m.Ex, sig)
 	}
 	extRcode(t, &m)
-	return truncCase{M: m, Size: pickSize(t, m), TC: rapid.IntRange(0, 4).Draw(t, "tc") == 0, Comp: rapid.IntRange(0, 3).Draw(t, "comp") == 0, FitsAll: fitsAll(m)}
+	// round 9: in a third of the replies the names are written with other (legal) escapes
+	var spell uint64
+	if rapid.IntRange(0, 2).Draw(t, "respell") == 0 {
+		spell = drawSpell(t)
+	}
+	return truncCase{M: m, Size: pickSizeSpelled(t, m, spell), TC: rapid.IntRange(0, 4).Draw(t, "tc") == 0, Comp: rapid.IntRange(0, 3).Draw(t, "comp") == 0, FitsAll: fitsAllSpelled(m, spell), Spell: spell}
 }
 
 func init() {
